@@ -97,7 +97,7 @@ def yaml_load(stream):
 
     try:
         value = yaml.load(stream, Loader=get_yaml_default_loader())
-    except ValueError as ex:  # a scalar constructor failed, e.g. int("0x_")
+    except (ValueError, AttributeError) as ex:  # a scalar constructor failed, e.g. int("0x_"), "!!timestamp abc"
         raise yaml.YAMLError(str(ex)) from ex
     if _has_reference_cycle(value):
         raise yaml.YAMLError("self-referential aliases are not supported")
